@@ -12,7 +12,7 @@ Import ListNotations.
 (* 1. On the WHOLE finite domain -- all 29 operations x every left operand kind (9 value kinds, maps
    with every subset of the <= 3 metakeys the operation inspects, host objects overriding every
    subset of the corresponding methods) x every right operand kind (likewise over the operation's
-   keys for arithmetic, over its own key otherwise) x every behaviour (7 each) of the reachable
+   keys for arithmetic, over its own key otherwise) x every behaviour (8 each: Bool true/false, value, null, list, unimplemented, thrown error, runtime error) of the reachable
    functions -- the VM's arm order does what the guide says, outside the known class C17a. *)
 Theorem dispatch_refines_spec :
   forall p l r fs,
@@ -57,6 +57,28 @@ Theorem only_arithmetic_asks_rhs :
     forall e, In e (fst (dispatch (oracle_of (sites p) fs) p l r)) -> ev_owner e = L.
 Proof. exact ObjProofs.only_arithmetic_asks_rhs. Qed.
 Print Assumptions only_arithmetic_asks_rhs.
+
+(* 2b. when a user function fails (a `throw`, or a runtime error raised inside it at any depth),
+   on every call path of the dispatch: nothing runs after it, the operation's outcome is THAT
+   error (kind preserved; re-raised as a string error only by a for loop's @next and by nested
+   display), and it is delivered to the caller of the operation -- no run-now call leaves its
+   barrier frame on the call stack (for EVERY oracle and operand) *)
+Theorem errors_propagate_unchanged :
+  forall p l r fs,
+    In l (lkinds p) -> In r (rkinds p) -> List.length fs = List.length (sites p) ->
+    let o := oracle_of (sites p) fs in
+    errors_delivered o p l (fst (dispatch o p l r)) (snd (dispatch o p l r)) = true.
+Proof. exact ObjProofs.errors_propagate_unchanged. Qed.
+Print Assumptions errors_propagate_unchanged.
+
+Theorem no_frame_left_behind : forall o p l r, leftover_frames o p l r = 0.
+Proof. exact ObjProofs.no_frame_left_behind. Qed.
+Print Assumptions no_frame_left_behind.
+
+Example runtime_error_in_lhs_function :
+  dispatch (oracle_of (sites (OpArith Add)) [FErr Runtime; FVal]) (OpArith Add) (VMap [k_op Add]) (VMap [k_rhs Add])
+  = ([Ev L (k_op Add) WL [WR]], OErr (EUser Runtime)).
+Proof. vm_compute. reflexivity. Qed.
 
 (* 3. with @< and @== (and not the operator's own key): for EVERY key set, oracle and rhs --
    <= is (a<b) || (a==b), > its negation, >= is not (a<b), != is not (a==b); @== is only called
@@ -149,7 +171,7 @@ Proof. vm_compute. reflexivity. Qed.
 (* the domain of theorem 1 is not empty and its hypotheses are satisfiable *)
 Example domain_nonempty :
   In (VMap [k_op Add; k_rhs Add]) (lkinds (OpArith Add)) /\ In (VObject [k_rhs Add]) (rkinds (OpArith Add))
-  /\ List.length (lkinds (OpCmp Le)) = 25 /\ List.length (lists_of 3 all_fres) = 343.
+  /\ List.length (lkinds (OpCmp Le)) = 25 /\ List.length (lists_of 3 all_fres) = 512.
 Proof. vm_compute. intuition. Qed.
 
 (* derived >: @< false, @== false  =>  two calls, result true *)
